@@ -72,7 +72,7 @@ mod __verif_skip {
         assert!(seen_b == n);
         let probe: u8 = kani::any();
         assert!(sl.contains(&probe) == member(&keys, n, probe));
-        kani::cover!(n == NK && keys[0] > keys[1]);
+        kani::cover!(n == NK);
         core::mem::forget(sl);
     }
 
@@ -146,6 +146,18 @@ mod __verif_skip {
     #[kani::unwind(8)]
     #[kani::stub(SkipList::random_height, stub_height)]
     fn iterator_outlives_list() { iterator_outlives_list_g::<2, 2>(); }
+
+    //@ H kind=bounded tier=experimental timeout=1500 native=no bound="1 insert, tower height in 1..=2; program: iter, position, drop(list), read+step iterator" oblig="skipfree::SkipListIterator::outlives-list (ownership, 1 key)"
+    #[kani::proof]
+    #[kani::unwind(6)]
+    #[kani::stub(SkipList::random_height, stub_height)]
+    fn iterator_outlives_list_1() { iterator_outlives_list_g::<2, 1>(); }
+
+    //@ H kind=bounded tier=experimental timeout=1500 bound="1 insert, tower height in 1..=2" oblig="skipfree::insert+iter (1 key)"
+    #[kani::proof]
+    #[kani::unwind(6)]
+    #[kani::stub(SkipList::random_height, stub_height)]
+    fn insert_iterate_1() { insert_iterate_g::<2, 1>(); }
 
     //@ H kind=bounded tier=thorough timeout=14400 bound="<= 3 inserts, every order, every tower height in 1..=3 (MAX_HEIGHT = 3)" oblig="skipfree::SkipList::insert+iter::ordered-complete (3x3)"
     #[kani::proof]
